@@ -249,6 +249,8 @@ type Script struct {
 	GoAway             bool
 	ClientPregrant     bool
 	ServerPregrant     bool
+	ClientSlow         bool
+	ServerSlow         bool
 	Features           map[string]bool
 }
 
@@ -368,6 +370,7 @@ func GenScript(r *lib.RNG, o Options) *Script {
 	s.SrvWin = uint32(lib.Pick(r, []int{65535, 50, 200, 5000}))
 	gen := func() [][]http2.Setting {
 		var out [][]http2.Setting
+		tableChanged := false
 		for k := r.Intn(3); k > 0; k-- {
 			var ss []http2.Setting
 			if o.WindowChanges && r.Chance(2, 3) {
@@ -376,7 +379,11 @@ func GenScript(r *lib.RNG, o Options) *Script {
 			if o.FrameSizeChanges && r.Chance(1, 3) {
 				ss = append(ss, http2.Setting{ID: http2.SettingMaxFrameSize, Val: uint32(lib.Pick(r, []int{16384, 20000, 65536}))})
 			}
-			if o.TableSizeChanges && r.Chance(1, 3) {
+			// at most one table-size change per endpoint: two changes between header blocks make
+			// the Go encoder emit two size updates, which x/net's hpack.Decoder (used by the relay
+			// and by these endpoints) wrongly rejects
+			if o.TableSizeChanges && !tableChanged && r.Chance(1, 3) {
+				tableChanged = true
 				ss = append(ss, http2.Setting{ID: http2.SettingHeaderTableSize, Val: uint32(lib.Pick(r, []int{0, 100, 4096, 65536}))})
 			}
 			if len(ss) > 0 {
@@ -414,6 +421,10 @@ func GenScript(r *lib.RNG, o Options) *Script {
 	s.ClientPregrant, s.ServerPregrant = r.Chance(1, 4), r.Chance(1, 6)
 	if s.ClientPregrant || s.ServerPregrant {
 		s.Features["pregrant"] = true
+	}
+	s.ClientSlow, s.ServerSlow = r.Chance(1, 6), r.Chance(1, 5)
+	if s.ClientSlow || s.ServerSlow {
+		s.Features["slow-reader"] = true
 	}
 	s.Pings = r.Intn(3)
 	s.GoAway = r.Chance(1, 4)
@@ -610,6 +621,19 @@ func (rg *Rig) Run(sc *Script, r *lib.RNG, hb *lib.Heartbeat) Result {
 	ce := newEndpoint("client", true, cconn, r.Sub(1), sc.ClientPol)
 	se := newEndpoint("server", false, sconn, r.Sub(2), sc.SrvPol)
 	ce.pregrant, se.pregrant = sc.ClientPregrant, sc.ServerPregrant
+	ce.slow, se.slow = sc.ClientSlow, sc.ServerSlow
+	if sc.ClientSlow {
+		if tc, ok := cconn.(*net.TCPConn); ok {
+			tc.SetReadBuffer(4096)
+		}
+	}
+	if sc.ServerSlow {
+		if tl, ok := sconn.(*tls.Conn); ok {
+			if tc, ok := tl.NetConn().(*net.TCPConn); ok {
+				tc.SetReadBuffer(4096)
+			}
+		}
+	}
 	cdone, sdone := make(chan struct{}), make(chan struct{})
 	stopGrants := make(chan struct{})
 	var srvWG sync.WaitGroup
